@@ -102,17 +102,7 @@ func (e *Env) syncParts(root *ssa.Function) (sync, async map[*ssa.Function]bool)
 func cSyncRun(e *Env, s *Sched, rule string) {
 	r := e.R
 	r.Rule(rule, "MPT (sync/async partition of the call tree)", "Node.Execute invokes the executor's Run itself and returns after it", 1)
-	isExecRun := func(c *ssa.CallCommon) bool {
-		if !c.IsInvoke() || c.Method.Name() != "Run" {
-			return false
-		}
-		n := ir.NamedType(c.Value.Type())
-		if !strings.HasPrefix(n, load.ModulePath) {
-			return false
-		}
-		_, isIface := c.Value.Type().Underlying().(*types.Interface)
-		return isIface && strings.Contains(n, "/executor.")
-	}
+	isExecRun := isExecutorRun
 	sync, async := e.syncParts(s.Execute)
 	nSync := 0
 	for _, f := range sortedFns(sync) {
@@ -234,4 +224,188 @@ func (e *Env) awaitedGo(in ssa.Instruction, sync map[*ssa.Function]bool) bool {
 	// (2) the launcher receives on every path from the go statement to a return
 	bad, _ := ir.Bypass(launch, nil, ir.PathQuery{Stop: isRecv, Bad: isRet})
 	return bad == nil
+}
+
+// isExecutorRun: an invocation of Run on the repository's executor interface.
+func isExecutorRun(c *ssa.CallCommon) bool {
+	if !c.IsInvoke() || c.Method.Name() != "Run" {
+		return false
+	}
+	n := ir.NamedType(c.Value.Type())
+	if !strings.HasPrefix(n, load.ModulePath) {
+		return false
+	}
+	_, isIface := c.Value.Type().Underlying().(*types.Interface)
+	return isIface && strings.Contains(n, "/executor.")
+}
+
+// cExecErrorReported: what Node.Execute reports after running the command is the
+// executor's Run result. In the part of Execute that has completed when it returns,
+// every error it returns after the Run, and every error it records in the node
+// (SetError / State.Error) after the Run, is - on every way the value can get there -
+// the result of that Run (directly, or as handed back by a helper that made the call),
+// or a read-back of the node's recorded error. An error variable that something else
+// is assigned to on the way (the close of the capture pipe) turns a failed command
+// into a success: the step is labelled finished, its dependents run.
+func cExecErrorReported(e *Env, s *Sched, rule string) {
+	r := e.R
+	r.Rule(rule, "VF", "after Run, Node.Execute returns and records the Run result", 1)
+	sync, _ := e.syncParts(s.Execute)
+	// helpers whose result is the Run result
+	var runResult func(v ssa.Value, d int) bool
+	runResult = func(v ssa.Value, d int) bool {
+		v = ir.Resolve(v)
+		if d > 4 {
+			return false
+		}
+		idx := 0
+		if ex, ok := v.(*ssa.Extract); ok {
+			v, idx = ex.Tuple, ex.Index
+		}
+		c, ok := v.(*ssa.Call)
+		if !ok {
+			return false
+		}
+		if isExecutorRun(&c.Call) {
+			return true
+		}
+		g := c.Call.StaticCallee()
+		if g == nil || !sync[g] || g.Blocks == nil {
+			return false
+		}
+		n := 0
+		for _, b := range g.Blocks {
+			rt, isR := b.Instrs[len(b.Instrs)-1].(*ssa.Return)
+			if !isR || idx >= len(rt.Results) || !e.Facts(g).Reachable(b) {
+				continue
+			}
+			for _, rv := range RetVals(rt, idx) {
+				for _, leaf := range phiLeaves(rv) {
+					n++
+					if !runResult(leaf, d+1) {
+						return false
+					}
+				}
+			}
+		}
+		return n > 0
+	}
+	isRecorded := func(v ssa.Value) bool {
+		p, ok := e.C.PathOf(ir.Resolve(v))
+		return ok && p.Suffix("State.Error")
+	}
+	okLeaf := func(v ssa.Value) bool { return runResult(v, 0) || isRecorded(v) }
+	nSites := 0
+	for _, f := range sortedFns(sync) {
+		if f != s.Execute && ir.UniqueSite(f) == nil {
+			continue
+		}
+		var runs []ssa.Instruction
+		for _, b := range f.Blocks {
+			for _, in := range b.Instrs {
+				if v, ok := in.(ssa.Value); ok {
+					if c, isC := in.(*ssa.Call); isC && runResult(v, 0) && (isExecutorRun(&c.Call) || true) {
+						runs = append(runs, in)
+					}
+				}
+			}
+		}
+		if len(runs) == 0 {
+			continue
+		}
+		after := func(in ssa.Instruction) bool {
+			for _, rn := range runs {
+				if ir.Precedes(rn, in) {
+					return true
+				}
+			}
+			return false
+		}
+		name := shortName(f)
+		for _, b := range f.Blocks {
+			for _, in := range b.Instrs {
+				switch x := in.(type) {
+				case *ssa.Return:
+					res := f.Signature.Results()
+					if res.Len() == 0 || !ir.IsErrorType(res.At(res.Len()-1).Type()) || !after(x) {
+						continue
+					}
+					nSites++
+					okAll := true
+					var facts []string
+					for _, rv := range RetVals(x, res.Len()-1) {
+						for _, leaf := range phiLeaves(rv) {
+							if !okLeaf(leaf) {
+								okAll = false
+								facts = append(facts, "can return "+e.C.Render(ir.Resolve(leaf)))
+							}
+							// a read-back of the recorded error stands for the Run result only if the
+							// Run result was recorded before
+							if !runResult(leaf, 0) && isRecorded(leaf) {
+								rec := false
+								for _, b2 := range f.Blocks {
+									for _, in2 := range b2.Instrs {
+										c2, isC := in2.(*ssa.Call)
+										if !isC || len(c2.Call.Args) != 2 || !ir.Precedes(c2, x) {
+											continue
+										}
+										if g2 := c2.Call.StaticCallee(); g2 != nil && len(e.C.FieldStores(g2, "State.Error")) > 0 {
+											all := true
+											for _, lf := range phiLeaves(c2.Call.Args[1]) {
+												if !runResult(lf, 0) {
+													all = false
+												}
+											}
+											if all {
+												rec = true
+											}
+										}
+									}
+								}
+								if !rec {
+									okAll = false
+									facts = append(facts, "returns the node's recorded error, but the Run result was not recorded before")
+								}
+							}
+						}
+					}
+					r.Check(okAll, name+": the error returned after Run is the Run result", e.InstrPos(x),
+						"after the command ran, the step's execution can report something other than the command's result (an error variable reused for another call): a failed command is reported as success, the step is labelled finished and its dependents run", facts...)
+				case *ssa.Call:
+					if !after(x) {
+						continue
+					}
+					g := x.Call.StaticCallee()
+					isSet := g != nil && g.Signature.Recv() != nil && strings.HasSuffix(ir.NamedType(g.Signature.Recv().Type()), schedRel+".Node") && len(x.Call.Args) == 2 && ir.IsErrorType(x.Call.Args[1].Type())
+					if !isSet {
+						continue
+					}
+					// a setter of the node's recorded error: stores its argument into State.Error
+					stores := false
+					for _, ev := range e.C.FieldStores(g, "State.Error") {
+						if ir.Resolve(ev.Val) == ssa.Value(g.Params[1]) {
+							stores = true
+						}
+					}
+					if !stores {
+						continue
+					}
+					nSites++
+					okAll := true
+					var facts []string
+					for _, leaf := range phiLeaves(x.Call.Args[1]) {
+						if !okLeaf(leaf) {
+							okAll = false
+							facts = append(facts, "can record "+e.C.Render(ir.Resolve(leaf)))
+						}
+					}
+					r.Check(okAll, name+": the error recorded in the node after Run is the Run result", e.InstrPos(x),
+						"after the command ran, the node's recorded error can be something other than the command's result", facts...)
+				}
+			}
+		}
+	}
+	if nSites == 0 {
+		r.Unknown("Node.Execute: what is returned / recorded after the executor's Run", e.Pos(s.Execute.Pos()), "no return of an error or SetError after the Run found")
+	}
 }
